@@ -1,8 +1,19 @@
 """Run the deductive part: generate obligations from the real source and
-discharge them."""
+discharge them.
+
+Obligations of a function are cached on disk keyed by the SHA-256 of the
+function's source module in the tree under test, of every engine / sidecar
+file, and the qualified name - so a cache entry can never outlive a change of
+the code or of the contracts (the check always reflects the current tree).
+Only `discharged` verdicts are cached; anything else is re-decided on each run.
+"""
+import hashlib
 import importlib
+import os
+import pickle
 import time
 
+from mmverif import common
 from mmverif.engine import backend
 from mmverif.engine import driver
 from mmverif.engine import lib as _lib            # registers builtins
@@ -17,12 +28,84 @@ SIDECARS = {
     'tbrmatchedmarkets': 'mmverif.contracts.tbrmatchedmarkets_spec',
 }
 
+CACHE_DIR = os.path.join(common.VERIF, '.cache', 'obl')
+USE_CACHE = os.environ.get('MMVERIF_NOCACHE', '') == ''
+
 
 def load_sidecar(modname):
   m = importlib.import_module(SIDECARS[modname])
   if hasattr(m, '_load_second_part'):
     m._load_second_part()
   return m
+
+
+_TOOL_HASH = [None]
+
+
+def tool_hash():
+  if _TOOL_HASH[0] is None:
+    h = hashlib.sha256()
+    base = os.path.join(common.VERIF, 'mmverif')
+    for sub in ('engine', 'contracts'):
+      d = os.path.join(base, sub)
+      for fn in sorted(os.listdir(d)):
+        if fn.endswith('.py'):
+          with open(os.path.join(d, fn), 'rb') as f:
+            h.update(fn.encode())
+            h.update(f.read())
+    _TOOL_HASH[0] = h.hexdigest()
+  return _TOOL_HASH[0]
+
+
+class UnitRecord:
+  """Picklable summary of one verified function / lemma."""
+
+  def __init__(self, unit):
+    self.qualname = unit.contract.qualname
+    self.modname = unit.modname
+    self.paths = unit.paths
+    self.vacuous = bool(getattr(unit, 'vacuous', False))
+    self.gen_time = unit.gen_time
+    self.sha256 = unit.sha256
+    self.obligations = list(unit.obligations)
+    self.cached = False
+
+  # compatibility with the report code
+  @property
+  def contract(self):
+    class _C:
+      pass
+    c = _C()
+    c.qualname = self.qualname
+    return c
+
+
+def _cache_path(modname, qualname, src_sha):
+  key = hashlib.sha256(('%s|%s|%s|%s' % (modname, qualname, src_sha,
+                                         tool_hash())).encode()).hexdigest()
+  return os.path.join(CACHE_DIR, key + '.pkl')
+
+
+def verify_cached(modname, qualname):
+  from mmverif.engine.symexec import WORLD
+  src = WORLD.source(modname)
+  path = _cache_path(modname, qualname, src.sha256)
+  if USE_CACHE and os.path.exists(path):
+    try:
+      with open(path, 'rb') as f:
+        rec = pickle.load(f)
+      rec.cached = True
+      return rec
+    except Exception:  # pylint: disable=broad-except
+      pass
+  rec = UnitRecord(driver.verify_function(modname, qualname))
+  if USE_CACHE:
+    os.makedirs(CACHE_DIR, exist_ok=True)
+    tmp = path + '.%d' % os.getpid()
+    with open(tmp, 'wb') as f:
+      pickle.dump(rec, f)
+    os.replace(tmp, path)
+  return rec
 
 
 class ProofResult:
@@ -38,6 +121,11 @@ class ProofResult:
     return [o for o, r in self.obligations if r['verdict'] == v]
 
 
+def _verdict_cache_path(smt2, timeout_ms):
+  key = hashlib.sha256(smt2.encode()).hexdigest()
+  return os.path.join(common.VERIF, '.cache', 'verdict', key[:2], key)
+
+
 def prove(targets, props=None, timeout_ms=10000, use_cvc5='fallback'):
   """targets: list of (modname, [qualnames] or None for all, with_lemmas).
 
@@ -48,45 +136,64 @@ def prove(targets, props=None, timeout_ms=10000, use_cvc5='fallback'):
   t0 = time.time()
   for modname, quals, with_lemmas in targets:
     side = load_sidecar(modname)
-    quals = quals or side.FUNCTIONS
+    quals = quals if quals is not None else side.FUNCTIONS
     for q in quals:
       try:
-        res.units.append(driver.verify_function(modname, q))
+        res.units.append(verify_cached(modname, q))
       except EngineError as e:
         res.errors.append('%s.%s: %s' % (modname, q, e))
     if with_lemmas:
       for label, fn, lprops in getattr(side, 'LEMMAS', []):
         try:
-          res.units.append(driver.verify_lemma(modname, label, fn, lprops))
+          res.units.append(UnitRecord(driver.verify_lemma(modname, label, fn,
+                                                          lprops)))
         except EngineError as e:
           res.errors.append('%s lemma %s: %s' % (modname, label, e))
   res.gen_time = time.time() - t0
-  jobs = []
   selected = []
   for u in res.units:
     for o in u.obligations:
       if props is not None and o.props and not (set(o.props) & set(props)):
         continue
-      selected.append(o)
-      if not o.trivial:
-        jobs.append((o.name, o.smt2))
+      selected.append((u, o))
   t1 = time.time()
-  # names are unique per unit; make them globally unique
   seen = {}
-  jobs2 = []
-  for o in selected:
+  jobs = []
+  cached = {}
+  for u, o in selected:
     n = seen.get(o.name, 0)
     seen[o.name] = n + 1
     if n:
       o.name = '%s#%d' % (o.name, n)
-    if not o.trivial:
-      jobs2.append((o.name, o.smt2))
-  out = backend.discharge(jobs2, timeout_ms=timeout_ms, use_cvc5=use_cvc5)
+    if o.trivial:
+      continue
+    vp = _verdict_cache_path(o.smt2, timeout_ms)
+    if USE_CACHE and os.path.exists(vp):
+      try:
+        with open(vp, 'rb') as f:
+          cached[o.name] = pickle.load(f)
+        continue
+      except Exception:  # pylint: disable=broad-except
+        pass
+    jobs.append((o.name, o.smt2))
+  out = backend.discharge(jobs, timeout_ms=timeout_ms, use_cvc5=use_cvc5)
   res.solve_time = time.time() - t1
-  for o in selected:
+  smt_of = {o.name: o.smt2 for u, o in selected if not o.trivial}
+  for name, r in out.items():
+    if USE_CACHE and r['verdict'] == 'discharged':
+      vp = _verdict_cache_path(smt_of[name], timeout_ms)
+      os.makedirs(os.path.dirname(vp), exist_ok=True)
+      with open(vp + '.%d' % os.getpid(), 'wb') as f:
+        pickle.dump(r, f)
+      os.replace(vp + '.%d' % os.getpid(), vp)
+  for u, o in selected:
     if o.trivial:
       res.obligations.append((o, {'verdict': 'discharged', 'runs': [
           {'backend': 'z3-simplify', 'result': 'unsat', 'time': 0.0}]}))
+    elif o.name in cached:
+      r = dict(cached[o.name])
+      r['from_cache'] = True
+      res.obligations.append((o, r))
     else:
       res.obligations.append((o, out[o.name]))
   return res
@@ -100,9 +207,9 @@ if __name__ == '__main__':
   for e in r.errors:
     print('ERROR', e)
   for u in r.units:
-    print('unit', u.contract.qualname, 'paths', u.paths, 'obligations',
+    print('unit', u.qualname, 'paths', u.paths, 'obligations',
           len(u.obligations), 'vacuous' if u.vacuous else '',
-          '%.2fs' % u.gen_time)
+          '%.2fs' % u.gen_time, '(cached)' if u.cached else '')
   for o, v in r.obligations:
     runs = ' '.join('%s:%s:%.2fs' % (x['backend'], x['result'], x['time'])
                     for x in v['runs'])
